@@ -828,10 +828,17 @@ impl<T: Config> UdpProtocol<T> {
             // send an input ack
             self.send_input_ack();
 
-            // delete received inputs that are too old
+            // delete received inputs that are too old. The sender encodes every packet against the
+            // input we acknowledged last as far as it knows, and it never holds more than
+            // PENDING_OUTPUT_SIZE + 1 unacknowledged inputs: keep at least that many frames, or every
+            // packet sent while an acknowledgement is still in flight refers to an input we have
+            // already forgotten (with a small or zero prediction window that was every packet as
+            // soon as the round trip exceeded one frame, and inputs only got through in bursts, one
+            // re-acknowledgement round trip apart).
             let last_recv_frame = self.last_recv_frame();
+            let history = (2 * self.max_prediction).max(PENDING_OUTPUT_SIZE + 1) as i32;
             self.recv_inputs
-                .retain(|&k, _| k >= last_recv_frame - 2 * self.max_prediction as i32);
+                .retain(|&k, _| k >= last_recv_frame - history);
         } else if body.start_frame <= self.last_recv_frame() {
             // We no longer hold the input this packet was encoded against, but it starts at a frame
             // we have already received: the sender evidently missed our acknowledgement. Without a
